@@ -345,4 +345,394 @@ theorem view_written (P : Problem) (t : Tour) (st : Act) (rest : List Act) (ht :
     rw [ih (fun run' h' => hall run' (by simp [h']))]
     simp
 
+/-! ## bookkeeping of `read_init_solution` -/
+
+theorem readActs_norm (P : Problem) (v : String) (sh : Nat) : ∀ (cs : List Ctx) (added : List String),
+    readActs P v sh (cs.map norm) added = readActs P v sh cs added := by
+  intro cs
+  induction cs with
+  | nil => intro added; rfl
+  | cons c cs ih =>
+    intro added
+    simp only [List.map_cons, readActs, matchAct_norm, ih]
+
+def isJobAct (a : Act) : Bool := isCustomerKind a.kind || isBoundKind a.kind
+
+/-- what the matcher does with the written form of a trace activity -/
+def Resolves (P : Problem) (v : String) (sh : Nat) (rs : Int) (a : Act) : Prop :=
+  ((a.kind = "departure" ∨ a.kind = "arrival") ∧ isJobAct a = false) ∨
+  (∃ jd ra, matchAct P v sh (ctxOfAct P rs a) = .ok (some (jd, ra)) ∧ P.find a.job = some jd ∧ ra.job = a.job ∧
+     isJobAct a = true ∧ (jd.singles.length ≤ 1 → a.task = 0) ∧
+     ((isCustomerKind a.kind = true ∧ jd.bound = false ∧
+        ra = { job := a.job, task := a.task, place := a.place, loc := a.loc }) ∨
+      (isCustomerKind a.kind = false ∧ jd.bound = true)))
+
+theorem matchAct_terminal (P : Problem) (v : String) (sh : Nat) (c : Ctx)
+    (h : c.kind = "departure" ∨ c.kind = "arrival") : matchAct P v sh c = .ok none := by
+  rcases h with h | h <;> simp [matchAct, h]
+
+theorem customerOnly_cons (P : Problem) (ra : RAct) (ras : List RAct) (jd : JobDef)
+    (h : P.find ra.job = some jd) :
+    customerOnly P (ra :: ras) = if jd.bound then customerOnly P ras else ra :: customerOnly P ras := by
+  simp only [customerOnly, List.filter_cons, h]
+  cases jd.bound <;> simp
+
+theorem customerActs_cons (a : Act) (as : List Act) :
+    customerActs (a :: as) = if isCustomerKind a.kind then
+      { job := a.job, task := a.task, place := a.place, loc := a.loc } :: customerActs as else customerActs as := by
+  simp only [customerActs, List.filter_cons]
+  split <;> simp
+
+/-- processing the written activities of one tour: no error, the customer activities come back
+    unchanged, `added_jobs` grows by exactly the jobs of the tour -/
+theorem readActs_ok (P : Problem) (v : String) (sh : Nat) (rs : Int) :
+    ∀ (acts prev : List Act) (added : List String),
+    (∀ a ∈ acts, Resolves P v sh rs a) →
+    (((prev ++ acts).filter isJobAct).map (fun a => (a.job, a.task))).Nodup →
+    (∀ a ∈ prev, isJobAct a = true → ∀ jd, P.find a.job = some jd → jd.singles.length ≤ 1 → a.task = 0) →
+    (∀ id ∈ added, ∃ a' ∈ prev, isJobAct a' = true ∧ a'.job = id) →
+    ∃ ras added', readActs P v sh (acts.map (ctxOfAct P rs)) added = .ok (ras, added') ∧
+      customerOnly P ras = customerActs acts ∧
+      (∀ id ∈ added', id ∈ added ∨ ∃ a' ∈ acts, isJobAct a' = true ∧ a'.job = id) ∧
+      (∀ id, (id ∈ added ∨ ∃ a' ∈ acts, isJobAct a' = true ∧ a'.job = id) → id ∈ added') := by
+  intro acts
+  induction acts with
+  | nil =>
+    intro prev added _ _ _ _
+    exact ⟨[], added, rfl, rfl, fun id h => Or.inl h, fun id h => by
+      rcases h with h | ⟨a', ha', _⟩
+      · exact h
+      · simp at ha'⟩
+  | cons a acts ih =>
+    intro prev added hres hnd hvalid hadd
+    have hres' : ∀ x ∈ acts, Resolves P v sh rs x := fun x hx => hres x (by simp [hx])
+    have hnd' : ((((prev ++ [a]) ++ acts).filter isJobAct).map (fun a => (a.job, a.task))).Nodup := by
+      simpa using hnd
+    rcases hres a (by simp) with ⟨hterm, hnj⟩ | ⟨jd, ra, hm, hfind, hrj, hj, htask, hcase⟩
+    · -- departure / arrival: skipped
+      have hm : matchAct P v sh (ctxOfAct P rs a) = .ok none := matchAct_terminal P v sh _ hterm
+      have hvalid' : ∀ x ∈ prev ++ [a], isJobAct x = true → ∀ jd, P.find x.job = some jd →
+          jd.singles.length ≤ 1 → x.task = 0 := by
+        intro x hx hxj
+        simp at hx
+        rcases hx with hx | rfl
+        · exact hvalid x hx hxj
+        · rw [hnj] at hxj; cases hxj
+      have hadd' : ∀ id ∈ added, ∃ a' ∈ prev ++ [a], isJobAct a' = true ∧ a'.job = id := by
+        intro id hid
+        obtain ⟨a', h1, h2⟩ := hadd id hid
+        exact ⟨a', by simp [h1], h2⟩
+      obtain ⟨ras, added', h1, h2, h3, h4⟩ := ih (prev ++ [a]) added hres' hnd' hvalid' hadd'
+      refine ⟨ras, added', ?_, ?_, ?_, ?_⟩
+      · simp only [List.map_cons, readActs, hm, h1]
+      · rw [customerActs_cons]
+        have : isCustomerKind a.kind = false := by
+          simp only [isJobAct, Bool.or_eq_false_iff] at hnj
+          exact hnj.1
+        simp [this, h2]
+      · intro id hid
+        rcases h3 id hid with h | ⟨a', ha', hh⟩
+        · exact Or.inl h
+        · exact Or.inr ⟨a', by simp [ha'], hh⟩
+      · intro id hid
+        apply h4
+        rcases hid with h | ⟨a', ha', hj', hh⟩
+        · exact Or.inl h
+        · simp at ha'
+          rcases ha' with rfl | ha'
+          · rw [hnj] at hj'; cases hj'
+          · exact Or.inr ⟨a', ha', hj', hh⟩
+    · -- a job activity
+      have hid := find_id P a.job jd hfind
+      -- no double assignment
+      have hnodouble : (added.contains jd.id && decide (jd.singles.length ≤ 1)) = false := by
+        cases hc : added.contains jd.id with
+        | false => simp
+        | true =>
+          cases hl : decide (jd.singles.length ≤ 1) with
+          | false => simp
+          | true =>
+            exfalso
+            simp only [decide_eq_true_eq] at hl
+            have hmem : jd.id ∈ added := by simpa using hc
+            obtain ⟨a', ha', hj', hjob'⟩ := hadd jd.id hmem
+            have ht' : a'.task = 0 := hvalid a' ha' hj' jd (by rw [hjob', hid]; exact hfind) hl
+            have ht : a.task = 0 := htask hl
+            -- (a'.job, a'.task) = (a.job, a.task) occurs twice
+            have hpair : (a'.job, a'.task) = (a.job, a.task) := by rw [hjob', hid, ht', ht]
+            have hsplit : ((prev ++ a :: acts).filter isJobAct).map (fun a => (a.job, a.task))
+                = (prev.filter isJobAct).map (fun a => (a.job, a.task)) ++
+                  ((a.job, a.task) :: (acts.filter isJobAct).map (fun a => (a.job, a.task))) := by
+              simp [List.filter_append, List.filter_cons, hj]
+            rw [hsplit] at hnd
+            have hdisj := (List.nodup_append.mp hnd).2.2
+            have hin : (a'.job, a'.task) ∈ (prev.filter isJobAct).map (fun a => (a.job, a.task)) :=
+              List.mem_map.mpr ⟨a', by simp [ha', hj'], rfl⟩
+            exact hdisj _ hin _ (by simp) hpair
+      have hvalid' : ∀ x ∈ prev ++ [a], isJobAct x = true → ∀ jd, P.find x.job = some jd →
+          jd.singles.length ≤ 1 → x.task = 0 := by
+        intro x hx hxj jd' hf' hl'
+        simp at hx
+        rcases hx with hx | rfl
+        · exact hvalid x hx hxj jd' hf' hl'
+        · rw [hfind] at hf'; cases hf'; exact htask hl'
+      let added1 := if added.contains jd.id then added else jd.id :: added
+      have hadd' : ∀ id ∈ added1, ∃ a' ∈ prev ++ [a], isJobAct a' = true ∧ a'.job = id := by
+        intro id hid'
+        simp only [added1] at hid'
+        split at hid'
+        · obtain ⟨a', h1, h2⟩ := hadd id hid'
+          exact ⟨a', by simp [h1], h2⟩
+        · simp at hid'
+          rcases hid' with rfl | hid'
+          · exact ⟨a, by simp, hj, hid.symm⟩
+          · obtain ⟨a', h1, h2⟩ := hadd id hid'
+            exact ⟨a', by simp [h1], h2⟩
+      obtain ⟨ras, added', h1, h2, h3, h4⟩ := ih (prev ++ [a]) added1 hres' hnd' hvalid' hadd'
+      refine ⟨ra :: ras, added', ?_, ?_, ?_, ?_⟩
+      · simp only [List.map_cons, readActs, hm]
+        have : (added.contains jd.id && decide (jd.singles.length ≤ 1)) = false := hnodouble
+        simp only [this, Bool.false_eq_true, if_false]
+        show (match readActs P v sh (acts.map (ctxOfAct P rs)) added1 with
+              | .error e => Except.error e
+              | .ok (ras, added') => Except.ok (ra :: ras, added')) = _
+        rw [h1]
+      · rw [customerActs_cons, customerOnly_cons P ra ras jd (by rw [hrj]; exact hfind)]
+        rcases hcase with ⟨hck, hb, hra⟩ | ⟨hck, hb⟩
+        · simp [hck, hb, h2, hra]
+        · simp [hck, hb, h2]
+      · intro id hid'
+        rcases h3 id hid' with h | ⟨a', ha', hh⟩
+        · simp only [added1] at h
+          split at h
+          · exact Or.inl h
+          · simp at h
+            rcases h with rfl | h
+            · exact Or.inr ⟨a, by simp, hj, hid.symm⟩
+            · exact Or.inl h
+        · exact Or.inr ⟨a', by simp [ha'], hh⟩
+      · intro id hid'
+        apply h4
+        rcases hid' with h | ⟨a', ha', hj', hh⟩
+        · left
+          simp only [added1]
+          split
+          · exact h
+          · simp [h]
+        · simp at ha'
+          rcases ha' with rfl | ha'
+          · left
+            simp only [added1]
+            split
+            · rename_i hc
+              rw [← hh, ← hid]; simpa using hc
+            · rw [← hh, ← hid]; simp
+          · exact Or.inr ⟨a', ha', hj', hh⟩
+
+/-! ## from the executable hypotheses to `Resolves` -/
+
+theorem boundCandidates_mem (c : Ctx) : ∀ (g : List JobDef) (x : JobDef × Nat × Place),
+    x ∈ boundCandidates c g → x.1 ∈ g := by
+  intro g
+  induction g with
+  | nil => intro x h; simp [boundCandidates] at h
+  | cons jd rest ih =>
+    intro x h
+    simp only [boundCandidates] at h
+    split at h
+    · split at h
+      · split at h
+        · simp at h
+          rcases h with rfl | h
+          · simp
+          · exact List.mem_cons_of_mem _ (ih x h)
+        · exact List.mem_cons_of_mem _ (ih x h)
+      · exact List.mem_cons_of_mem _ (ih x h)
+    · exact List.mem_cons_of_mem _ (ih x h)
+
+theorem matchBound_mem (c : Ctx) (g : List JobDef) (jd : JobDef) (p : Nat)
+    (h : matchBound c g = some (jd, p)) : jd ∈ g := by
+  simp only [matchBound] at h
+  split at h
+  · rename_i x hx
+    simp at h
+    obtain ⟨rfl, _⟩ := h
+    exact boundCandidates_mem c g x (List.mem_of_find?_eq_some hx)
+  · split at h
+    · rename_i x xs hc
+      simp at h
+      obtain ⟨rfl, _⟩ := h
+      exact boundCandidates_mem c g x (by rw [hc]; simp)
+    · simp at h
+
+theorem boundGroup_find (P : Problem) (v k : String) (sh : Nat) : ∀ (fuel n : Nat) (jd : JobDef),
+    jd ∈ boundGroup P v k sh fuel n → P.find jd.id = some jd := by
+  intro fuel
+  induction fuel with
+  | zero => intro n jd h; simp [boundGroup] at h
+  | succ fuel ih =>
+    intro n jd h
+    simp only [boundGroup] at h
+    split at h
+    · rename_i jd' hf
+      simp at h
+      rcases h with rfl | h
+      · have := find_id P _ _ hf
+        rw [this]; exact hf
+      · exact ih (n+1) jd h
+    · simp at h
+
+theorem bound_not_terminal (k : String) (h : isBoundKind k = true) : ¬k = "departure" ∧ ¬k = "arrival" := by
+  simp only [isBoundKind, Bool.or_eq_true, beq_iff_eq] at h
+  rcases h with (h | h) | h <;> simp [h]
+
+/-- hypotheses on the problem: the places of every customer job can be told apart, multi-jobs carry
+    enough tags for the reader's guard -/
+def ProblemOk (P : Problem) : Prop :=
+  ∀ jd ∈ P.jobs, jd.bound = false →
+    placesDistinguishable jd = true ∧ (decide (jd.singles.length ≤ 1) || multiTagsOk jd) = true
+
+theorem tourOk_resolves (P : Problem) (t : Tour) (st : Act) (rest : List Act) (hP : ProblemOk P)
+    (ht : t.acts = st :: rest) (hok : tourOk P t = true) :
+    st.kind = "departure" ∧
+    ∀ a ∈ t.acts, Resolves P t.vehicle t.shift (fmt st.dep) a ∧ good a := by
+  simp only [tourOk, ht, Bool.and_eq_true, beq_iff_eq, List.all_eq_true] at hok
+  obtain ⟨hst, hrest⟩ := hok
+  refine ⟨hst, ?_⟩
+  intro a ha
+  rw [ht] at ha
+  simp at ha
+  rcases ha with rfl | ha
+  · exact ⟨Or.inl ⟨Or.inl hst, by simp [isJobAct, isCustomerKind, isBoundKind, hst]⟩, Or.inl hst⟩
+  · have h := hrest a ha
+    simp only [Bool.or_eq_true, Bool.and_eq_true, beq_iff_eq] at h
+    rcases h with (harr | hcust) | hbound
+    · exact ⟨Or.inl ⟨Or.inr harr, by simp [isJobAct, isCustomerKind, isBoundKind, harr]⟩, Or.inr (Or.inl harr)⟩
+    · obtain ⟨hk, hpl⟩ := hcust
+      split at hpl
+      · rename_i jd pl hpo
+        simp only [Bool.and_eq_true, Bool.not_eq_true'] at hpl
+        obtain ⟨hb, hsv⟩ := hpl
+        obtain ⟨hj, s, hs, hp⟩ := placeOf_some P a jd pl hpo
+        obtain ⟨hd, hmt⟩ := hP jd (find_mem P a.job jd hj) hb
+        have hm := matchAct_customer P t.vehicle t.shift (fmt st.dep) a jd pl hk hpo hsv hd hmt
+        have hdep : fmt a.dep = endOf a := by
+          simp only [servedAt, Bool.and_eq_true, beq_iff_eq] at hsv
+          exact hsv.1.1.2
+        refine ⟨Or.inr ⟨jd, _, hm, hj, rfl, by simp [isJobAct, hk], ?_, Or.inl ⟨hk, hb, rfl⟩⟩, Or.inr (Or.inr hdep)⟩
+        intro hl
+        have := (List.getElem?_eq_some_iff.mp hs).1
+        omega
+      · simp at hpl
+    · obtain ⟨⟨⟨⟨hk, hnc⟩, htask⟩, hdep⟩, hmb⟩ := hbound
+      split at hmb
+      · rename_i jd p hmatch
+        simp only [Bool.and_eq_true, beq_iff_eq] at hmb
+        obtain ⟨hid, hb⟩ := hmb
+        simp only [Bool.not_eq_true'] at hnc
+        have hnt := bound_not_terminal a.kind hk
+        have hfind : P.find a.job = some jd := by
+          have := boundGroup_find P t.vehicle a.kind t.shift _ _ jd (matchBound_mem _ _ jd p hmatch)
+          rw [hid] at this; exact this
+        have hm : matchAct P t.vehicle t.shift (ctxOfAct P (fmt st.dep) a)
+            = .ok (some (jd, { job := jd.id, task := 0, place := p, loc := a.loc })) := by
+          have hck : (ctxOfAct P (fmt st.dep) a).kind = a.kind := rfl
+          simp only [matchAct, hck, hnc, hk, Bool.false_eq_true, if_false, if_true]
+          have hnb : (a.kind == "departure" || a.kind == "arrival") = false := by simp [hnt.1, hnt.2]
+          simp only [hnb, Bool.false_eq_true, if_false, hmatch]
+          rfl
+        exact ⟨Or.inr ⟨jd, _, hm, hfind, hid, by simp [isJobAct, hk], fun _ => htask, Or.inr ⟨hnc, hb⟩⟩,
+          Or.inr (Or.inr hdep)⟩
+      · simp at hmb
+
+/-! ## all tours, the unassigned list, the theorem -/
+
+theorem readActs_written (P : Problem) (t : Tour) (st : Act) (rest : List Act) (ht : t.acts = st :: rest)
+    (hk : st.kind = "departure") (hg : ∀ x ∈ t.acts, good x) (added : List String) :
+    readActs P t.vehicle t.shift (viewTour (writeTour P t)) added
+      = readActs P t.vehicle t.shift (t.acts.map (ctxOfAct P (fmt st.dep))) added := by
+  rw [← readActs_norm, view_written P t st rest ht hk hg]
+  have : t.acts.map (fun x => norm (ctxOfAct P (fmt st.dep) x)) = (t.acts.map (ctxOfAct P (fmt st.dep))).map norm := by
+    simp
+  rw [this, readActs_norm]
+
+def pairOf (a : Act) : String × Nat := (a.job, a.task)
+
+theorem readTours_ok (P : Problem) (hP : ProblemOk P) : ∀ (tours : List Tour) (prev : List Act) (added : List String),
+    (∀ t ∈ tours, tourOk P t = true) →
+    (((prev ++ tours.flatMap (·.acts)).filter isJobAct).map (fun a => (a.job, a.task))).Nodup →
+    (∀ a ∈ prev, isJobAct a = true → ∀ jd, P.find a.job = some jd → jd.singles.length ≤ 1 → a.task = 0) →
+    (∀ id ∈ added, ∃ a' ∈ prev, isJobAct a' = true ∧ a'.job = id) →
+    ∃ rts added', readTours P (tours.map (writeTour P)) added = .ok (rts, added') ∧
+      sameCustomerActs P tours rts = true ∧
+      (∀ id, (id ∈ added ∨ ∃ a' ∈ tours.flatMap (·.acts), isJobAct a' = true ∧ a'.job = id) → id ∈ added') := by
+  intro tours
+  induction tours with
+  | nil =>
+    intro prev added _ _ _ _
+    exact ⟨[], added, rfl, rfl, fun id h => by
+      rcases h with h | ⟨a', ha', _⟩
+      · exact h
+      · simp at ha'⟩
+  | cons t tours ih =>
+    intro prev added hok hnd hvalid hadd
+    have htok := hok t (by simp)
+    -- the tour starts with the departure activity
+    obtain ⟨st, rest, ht⟩ : ∃ st rest, t.acts = st :: rest := by
+      cases hacts : t.acts with
+      | nil => simp [tourOk, hacts] at htok
+      | cons st rest => exact ⟨st, rest, rfl⟩
+    obtain ⟨hst, hall⟩ := tourOk_resolves P t st rest hP ht htok
+    have hres : ∀ a ∈ t.acts, Resolves P t.vehicle t.shift (fmt st.dep) a := fun a ha => (hall a ha).1
+    have hgood : ∀ a ∈ t.acts, good a := fun a ha => (hall a ha).2
+    have hnd1 : (((prev ++ t.acts).filter isJobAct).map (fun a => (a.job, a.task))).Nodup := by
+      have : ((prev ++ (t :: tours).flatMap (·.acts)).filter isJobAct).map (fun a => (a.job, a.task))
+          = ((prev ++ t.acts).filter isJobAct).map (fun a => (a.job, a.task)) ++
+            ((tours.flatMap (·.acts)).filter isJobAct).map (fun a => (a.job, a.task)) := by
+        simp [List.filter_append]
+      rw [this] at hnd
+      exact (List.nodup_append.mp hnd).1
+    obtain ⟨ras, added1, h1, h2, h3, h4⟩ := readActs_ok P t.vehicle t.shift (fmt st.dep) t.acts prev added hres hnd1
+      hvalid hadd
+    have hnd2 : ((((prev ++ t.acts) ++ tours.flatMap (·.acts)).filter isJobAct).map (fun a => (a.job, a.task))).Nodup := by
+      simpa using hnd
+    have hvalid2 : ∀ a ∈ prev ++ t.acts, isJobAct a = true → ∀ jd, P.find a.job = some jd →
+        jd.singles.length ≤ 1 → a.task = 0 := by
+      intro a ha hj jd hf hl
+      simp at ha
+      rcases ha with ha | ha
+      · exact hvalid a ha hj jd hf hl
+      · rcases hres a ha with ⟨_, hnj⟩ | ⟨jd', _, _, hf', _, _, htask, _⟩
+        · rw [hnj] at hj; cases hj
+        · rw [hf] at hf'; cases hf'; exact htask hl
+    have hadd2 : ∀ id ∈ added1, ∃ a' ∈ prev ++ t.acts, isJobAct a' = true ∧ a'.job = id := by
+      intro id hid
+      rcases h3 id hid with h | ⟨a', ha', hh⟩
+      · obtain ⟨a', ha', hh⟩ := hadd id h
+        exact ⟨a', by simp [ha'], hh⟩
+      · exact ⟨a', by simp [ha'], hh⟩
+    obtain ⟨rts, added2, g1, g2, g3⟩ := ih (prev ++ t.acts) added1 (fun t' h' => hok t' (by simp [h'])) hnd2 hvalid2 hadd2
+    refine ⟨({ vehicle := t.vehicle, shift := t.shift, acts := ras } : RTour) :: rts, added2, ?_, ?_, ?_⟩
+    · have hne : (writeTour P t).stops.isEmpty = false := by
+        simp only [writeTour, ht]
+        obtain ⟨r, rs, hgr⟩ := groupRuns_head st rest
+        rw [hgr]; rfl
+      simp only [List.map_cons, readTours, hne, Bool.false_eq_true, if_false]
+      have hv : (writeTour P t).vehicle = t.vehicle := rfl
+      have hs : (writeTour P t).shift = t.shift := rfl
+      rw [hv, hs, readActs_written P t st rest ht hst hgood added, h1]
+      simp only [g1]
+    · simp only [sameCustomerActs, List.length_cons, List.zip_cons_cons, List.all_cons, Bool.and_eq_true,
+        beq_iff_eq, decide_eq_true_eq] at g2 ⊢
+      refine ⟨by omega, ?_, g2.2⟩
+      simp [h2]
+    · intro id hid
+      apply g3
+      rcases hid with h | ⟨a', ha', hj', hh⟩
+      · exact Or.inl (h4 id (Or.inl h))
+      · simp at ha'
+        rcases ha' with ha' | ⟨t', ht', ha'⟩
+        · exact Or.inl (h4 id (Or.inr ⟨a', ha', hj', hh⟩))
+        · exact Or.inr ⟨a', List.mem_flatMap.mpr ⟨t', ht', ha'⟩, hj', hh⟩
+
 end C11.Init
